@@ -175,6 +175,27 @@ theorem addItemBody_rows (l : LH) (k o : Str) (v : V) (d d' : Db) (n : Nat) (h :
     have := h1.setAllValues (hinv.insertItem l.cid k o l.loopNum hins).itemPK l.cid k v
     rw [he] at this; exact this
 
+/-- after CREATE_LOOP_SQL the largest loop number of the container is the new loop's (GET_LOOPNUM_SQL reads it back) -/
+theorem insertLoop_maxLoopNum (d d1 : Db) (cid : Nat) (cat : Option Str) (hinv : Inv d) (hins : d.insertLoopUnnumbered cid cat = .ok d1) :
+    ∃ c, c ∈ d.containers ∧ c.id = cid ∧ d1.maxLoopNum cid = c.nextLoopNum ∧ d.hasLoop cid c.nextLoopNum = false ∧
+      d1.loops = d.loops ++ [{ cid := cid, loopNum := c.nextLoopNum, category := cat, lastRowNum := 0 }] ∧
+      d1.items = d.items ∧ d1.values = d.values ∧ d1.frames = d.frames ∧ d1.blocks = d.blocks := by
+  obtain ⟨c, hcm, hcid, hfresh, l1, i1, v1, f1, b1⟩ := insertLoop_spec d d1 cid cat hins
+  refine ⟨c, hcm, hcid, ?_, hfresh, l1, i1, v1, f1, b1⟩
+  unfold Db.maxLoopNum
+  rw [l1, List.filter_append]
+  have : [({ cid := cid, loopNum := c.nextLoopNum, category := cat, lastRowNum := 0 } : LoopRow)].filter (fun l => l.cid == cid) =
+      [{ cid := cid, loopNum := c.nextLoopNum, category := cat, lastRowNum := 0 }] := by simp
+  rw [this]
+  apply Nat.le_antisymm
+  · apply foldl_max_le _ _ _ (Nat.zero_le _)
+    intro x hx
+    rcases List.mem_append.mp hx with hx | hx
+    · obtain ⟨hxm, hxc⟩ := List.mem_filter.mp hx
+      exact Nat.le_of_lt (hinv.ext.loopNumsBelow c hcm x hxm (by rw [hcid]; simpa using hxc))
+    · simp at hx; subst hx; exact Nat.le_refl _
+  · exact foldl_max_mem _ 0 { cid := cid, loopNum := c.nextLoopNum, category := cat, lastRowNum := 0 } (List.mem_append_right _ (List.mem_singleton.mpr rfl))
+
 /-- what cif_container_create_loop does to the tables -/
 theorem createLoopBody_spec (cid : Nat) (cat : Option Str) (names : List Name) (d d' : Db) (l : LH) (hinv : Inv d)
     (he : createLoopBody cid cat names d = .ok (d', l)) :
